@@ -1,13 +1,16 @@
 (* Correspondence check for C37: histories of Write/Delete/Compact on a real source
    volume and Backup runs (runBackup's logic over the real gRPC VolumeSyncStatus /
    VolumeIncrementalCopy) into a real backup volume; after every backup run every key
-   is read on both sides. *)
+   is read on both sides.  AppendAtNs values are inputs (the harness overwrites the 8
+   timestamp bytes of each record the real write path appended). *)
 From Coq Require Import List NArith Bool.
 From SW Require Export base.Verdict model.Backup.
 Import ListNotations.
 Local Open Scope N_scope.
 
-Record case := { nkeys : N; ops : list op; impl : list obs }.
+(* [sync]: the harness's runBackup transcription (hook VerifC37RunBackup) is textually
+   the tail of the real runBackup *)
+Record case := { nkeys : N; ops : list op; sync : bool; impl : list obs }.
 
 Definition read_eqb (a b : option (N * N)) : bool :=
   match a, b with
@@ -25,16 +28,34 @@ Fixpoint all2 {A} (f : A -> A -> bool) (l1 l2 : list A) : bool :=
 
 Definition obs_eqb (a b : obs) : bool :=
   (o_sdat a =? o_sdat b) && (o_bdat a =? o_bdat b) && (o_srev a =? o_srev b) && (o_brev a =? o_brev b)
+  && (o_sidx a =? o_sidx b) && (o_bidx a =? o_bidx b)
   && all2 read_eqb (o_sreads a) (o_sreads b) && all2 read_eqb (o_breads a) (o_breads b).
 
 Definition is_some {A} (x : option A) : bool := match x with Some _ => true | None => false end.
 
+(* the property on one observation: the backup serves exactly what the source serves *)
+Definition prop_ok (o : obs) : bool := all2 read_eqb (o_sreads o) (o_breads o).
+
+(* the history up to and including the first backup run whose observation violates the
+   property (the whole history when none does): a known finding excuses a violation
+   only if one of its instances happened BEFORE that run *)
+Fixpoint prefix_to_fail (h : list op) (obs : list obs) : list op :=
+  match h with
+  | [] => []
+  | Backup :: h' =>
+      match obs with
+      | o :: obs' => if prop_ok o then Backup :: prefix_to_fail h' obs' else [Backup]
+      | [] => [Backup]
+      end
+  | o :: h' => o :: prefix_to_fail h' obs
+  end.
+
 Definition check (c : case) : outcome :=
-  {| o_corr := hist_ok (ops c) && all2 obs_eqb (run (nkeys c) init (ops c)) (impl c);
+  {| o_corr := sync c && hist_ok (ops c) && all2 obs_eqb (run (nkeys c) init (ops c)) (impl c);
      (* the property itself, on the implementation's answers: after every backup run
         the backup serves exactly what the source serves *)
-     o_prop := forallb (fun o => all2 read_eqb (o_sreads o) (o_breads o)) (impl c);
-     o_trig := if trig_compacted_before_pull (ops c) then Some 0 else None;
+     o_prop := forallb prop_ok (impl c);
+     o_trig := trigger (prefix_to_fail (ops c) (impl c));
      o_nontrivial := existsb (fun o => existsb is_some (o_sreads o)) (impl c) |}.
 
 Definition summarize_cases (l : list case) : summary := summarize check l.
